@@ -4,6 +4,7 @@
   the model never defaults.
 -/
 import FB.Wire
+import FB.Codec
 import FB.Conc
 open FB FB.Wire
 open Lean (Json)
@@ -221,6 +222,22 @@ def runConc (j : Lean.Json) : Except String Lean.Json := do
     return Json.mkObj [("schedules", .num (.fromNat scheds.length)), ("outcomes", .arr ((dedupStr outs).map .str).toArray)]
   | p => throw s!"unknown protocol {p}"
 
+/-- the cache file's codec (`FB.Codec`): decode a document, re-encode it, list what gets registered -/
+def runCodec (j : Lean.Json) : Except String Lean.Json := do
+  let docs ← (← j.getObjVal? "docs").getArr?
+  let outs ← docs.toList.mapM fun d => do
+    let v ← parseJson d
+    match FB.Codec.decodeOp 200 (FB.Codec.textRT v) with
+    | none => pure (Json.mkObj [("err", .bool true)])
+    | some op =>
+      let reg := registered op
+      let files := reg.filterMap fun
+        | .buildFile p _ _ _ _ _ _ _ _ _ _ => some (Lean.Json.str (showPath p))
+        | _ => none
+      let nsubs := (reg.filter fun | .subbuild _ _ _ _ _ _ _ => true | _ => false).length
+      pure (Json.mkObj [("ok", showJson (FB.Codec.encodeOp op)), ("files", .arr files.toArray), ("nsubs", .num (.fromNat nsubs))])
+  return Json.mkObj [("outs", .arr outs.toArray)]
+
 def handle (line : String) : Lean.Json :=
   match Lean.Json.parse line with
   | .error e => Json.mkObj [("bad-op", .str e)]
@@ -231,6 +248,7 @@ def handle (line : String) : Lean.Json :=
       | "hist" => runHist j
       | "json" => runJsonUnit j
       | "conc" => runConc j
+      | "codec" => runCodec j
       | k => throw s!"unknown kind {k}"
     match r with
     | .ok out => out.setObjVal! "id" id
